@@ -114,3 +114,208 @@ Theorem rendered_labels_distinct :
     NoDup (lnames code).
 Proof. exact LabelsUnique.rendered_labels_distinct. Qed.
 Print Assumptions rendered_labels_distinct.
+
+(* ---- the WHOLE program (ProgramClosed.v). graph_size: a chunk graph never has more than work_fuel chunks, so the 10^40 premise of
+   the decimal printer is gone. script_targets_defined, script_ends_in_terminator, script_label_names: per script, without the
+   names_okb / NoDup premises. program_parts / program_labels: the labels of the program's code are a permutation of the data
+   names (movements, marts, mapscripts headers and tables, texts) and the own labels of every script; the jump targets are
+   those of the scripts. names_ok p (executable; on the parsed program: all names - top-level statements, inline map scripts,
+   tables, hoisted texts / movements, the author's labels - pairwise distinct and none of the form <script>_<digits> for a
+   script of the program): names_ok_all_distinct / program_labels_distinct: then every label of the output is defined exactly
+   once; distinct_labels_need_distinct_names: the first half is necessary. program_generated_references_defined (no condition
+   on names), mapscripts_references_defined, patch_labels_are_program_names / patched_arguments_defined (every label patched into
+   a command argument is a text / movement of the program), program_author_labels_present / _once, program_scripts_closed
+   (every script's code is a closed segment ending in a terminator). program_closed: all of it under names_ok.
+   EXAMPLES.generated_text_name_vs_chunk_label (ProgramClosed.v): script A with two inline texts and a script named A_Text with
+   an `if` define A_Text_1 twice although no name the author wrote imitates a generated name - known finding D21. ---- *)
+From Coq Require Import Permutation. From Pory Require Import Parser Format ProgramClosed. Open Scope list_scope.
+Theorem graph_size :
+  forall (body : list stmt) (w : wst), emit_graph body = Emitter.Ok w -> (Z.of_nat (length (finals w)) <= 10 ^ 40)%Z.
+Proof. exact ProgramClosed.graph_size. Qed.
+Print Assumptions graph_size.
+
+Theorem script_targets_defined :
+  forall (mp : option text) (tl : list text) (name : text) (glob : bool) (body : list stmt) (w : wst),
+  emit_graph body = Emitter.Ok w ->
+  src_ok body ->
+  forall (opt : bool) (code : list instr),
+  emit_script mp tl name glob opt body = Emitter.Ok code -> forall l : text, In l (targets_of code) -> In l (lnames code).
+Proof. exact ProgramClosed.script_targets_defined. Qed.
+Print Assumptions script_targets_defined.
+
+Theorem script_ends_in_terminator :
+  forall (mp : option text) (tl : list text) (name : text) (glob : bool) (body : list stmt) (w : wst),
+  emit_graph body = Emitter.Ok w ->
+  src_ok body -> forall (opt : bool) (code : list instr), emit_script mp tl name glob opt body = Emitter.Ok code -> ends_in_terminator code.
+Proof. exact ProgramClosed.script_ends_in_terminator. Qed.
+Print Assumptions script_ends_in_terminator.
+
+Theorem script_label_names :
+  forall (mp : option text) (tl : list text) (name : text) (glob : bool) (body : list stmt) (w : wst),
+  emit_graph body = Emitter.Ok w ->
+  src_ok body ->
+  forall (opt : bool) (code : list instr),
+  emit_script mp tl name glob opt body = Emitter.Ok code ->
+  exists gen : list Z,
+    Permutation (lnames code) (name :: dlabs body ++ map (lbl name) gen) /\
+    NoDup gen /\ (forall i : Z, In i gen -> (0 < i < 10 ^ 40)%Z /\ In (lbl name i) (targets_of code)).
+Proof. exact ProgramClosed.script_label_names. Qed.
+Print Assumptions script_label_names.
+
+Theorem program_parts :
+  forall (opt : bool) (mp : option text) (p : program) (prog : list instr),
+  Forall src_ok (ProgWf.bodies_of (tops p)) ->
+  emit_program_instrs opt mp p = Emitter.Ok prog ->
+  exists parts : list part,
+    map p_script parts = NameClash.scripts_of (tops p) /\
+    Forall (part_ok mp (map xname (texts p)) opt) parts /\
+    Permutation (lnames prog) (data_names p ++ flat_map own_names parts) /\
+    Permutation (targets_of prog) (flat_map (fun x : part => targets_of (p_code x)) parts).
+Proof. exact ProgramClosed.program_parts. Qed.
+Print Assumptions program_parts.
+
+Theorem program_labels :
+  forall (hl hd hs : N -> bool) (autovars : list (text * autovar)) (switches : list (text * text)) (fc : fontcfg) (cli_font : text)
+    (cli_maxlen : Z) (src : text) (p : program),
+  parse_program autovars switches true (parse_format fc cli_font cli_maxlen true) (lex hl hd hs src) = Ok p ->
+  forall (optimize : bool) (mp : option text) (prog : list instr),
+  emit_program_instrs optimize mp p = Emitter.Ok prog ->
+  exists parts : list part,
+    map p_script parts = NameClash.scripts_of (tops p) /\
+    Forall (part_ok mp (map xname (texts p)) optimize) parts /\
+    Permutation (lnames prog) (data_names p ++ flat_map own_names parts) /\
+    Permutation (targets_of prog) (flat_map (fun x : part => targets_of (p_code x)) parts).
+Proof. exact ProgramClosed.program_labels. Qed.
+Print Assumptions program_labels.
+
+Theorem names_ok_all_distinct :
+  forall (p : program) (parts : list part),
+  names_ok p = true ->
+  map p_script parts = NameClash.scripts_of (tops p) -> Forall gen_ok parts -> NoDup (data_names p ++ flat_map own_names parts).
+Proof. exact ProgramClosed.names_ok_all_distinct. Qed.
+Print Assumptions names_ok_all_distinct.
+
+Theorem program_labels_distinct :
+  forall (opt : bool) (mp : option text) (p : program) (prog : list instr),
+  Forall src_ok (ProgWf.bodies_of (tops p)) -> emit_program_instrs opt mp p = Emitter.Ok prog -> names_ok p = true -> NoDup (lnames prog).
+Proof. exact ProgramClosed.program_labels_distinct. Qed.
+Print Assumptions program_labels_distinct.
+
+Theorem distinct_labels_need_distinct_names :
+  forall (opt : bool) (mp : option text) (p : program) (prog : list instr),
+  Forall src_ok (ProgWf.bodies_of (tops p)) -> emit_program_instrs opt mp p = Emitter.Ok prog -> NoDup (lnames prog) -> NoDup (all_names p).
+Proof. exact ProgramClosed.distinct_labels_need_distinct_names. Qed.
+Print Assumptions distinct_labels_need_distinct_names.
+
+Theorem program_generated_references_defined :
+  forall (opt : bool) (mp : option text) (p : program) (prog : list instr),
+  Forall src_ok (ProgWf.bodies_of (tops p)) ->
+  emit_program_instrs opt mp p = Emitter.Ok prog -> forall l : text, In l (targets_of prog) -> In l (lnames prog).
+Proof. exact ProgramClosed.program_generated_references_defined. Qed.
+Print Assumptions program_generated_references_defined.
+
+Theorem mapscripts_references_defined :
+  forall (opt : bool) (mp : option text) (p : program) (prog : list instr),
+  Forall src_ok (ProgWf.bodies_of (tops p)) ->
+  emit_program_instrs opt mp p = Emitter.Ok prog ->
+  forall (n : text) (g : bool) (plain : list mapscript) (tables : list tablems),
+  In (TMapScripts n g plain tables) (tops p) ->
+  In n (lnames prog) /\
+  (forall m : mapscript, In m plain -> In (ms_ref_line (msType m) (msName m)) prog /\ (msScript m <> None -> In (msName m) (lnames prog))) /\
+  (forall tb : tablems,
+   In tb tables ->
+   In (ms_ref_line (tmType tb) (tmName tb)) prog /\
+   In (tmName tb) (lnames prog) /\
+   (forall e : tableentry, In e (tmEntries tb) -> In (ms2_ref_line e) prog /\ (teScript e <> None -> In (teName e) (lnames prog)))).
+Proof. exact ProgramClosed.mapscripts_references_defined. Qed.
+Print Assumptions mapscripts_references_defined.
+
+Theorem patch_labels_are_program_names :
+  forall (autovars : list (text * autovar)) (switches : list (text * text)) (pf : toks -> res (token * text * text * toks)) 
+    (ts : toks) (p : program),
+  parse_program autovars switches true pf ts = Ok p ->
+  exists (imps : list impdata) (pss : list (list patch)) (news : list top),
+    tops p = news ++ Hoisting.mov_defs [] (Hoisting.new_movs [] (flat_map idM imps)) /\
+    hoisted_tops autovars switches pf news imps pss /\
+    (forall ps : list patch,
+     In ps pss ->
+     forall (c a : nat) (l : text),
+     In (c, a, l) ps ->
+     (exists x : textdef, In x (texts p) /\ xname x = l) \/ (exists (tk : token) (steps : list token), In (TMovement l false tk steps) (tops p))).
+Proof. exact ProgramClosed.patch_labels_are_program_names. Qed.
+Print Assumptions patch_labels_are_program_names.
+
+Theorem patched_arguments_defined :
+  forall (hl hd hs : N -> bool) (autovars : list (text * autovar)) (switches : list (text * text)) (fc : fontcfg) (cli_font : text)
+    (cli_maxlen : Z) (src : text) (p : program),
+  parse_program autovars switches true (parse_format fc cli_font cli_maxlen true) (lex hl hd hs src) = Ok p ->
+  forall (optimize : bool) (mp : option text) (prog : list instr),
+  emit_program_instrs optimize mp p = Emitter.Ok prog ->
+  exists (imps : list impdata) (pss : list (list patch)) (news : list top),
+    tops p = news ++ Hoisting.mov_defs [] (Hoisting.new_movs [] (flat_map idM imps)) /\
+    hoisted_tops autovars switches (parse_format fc cli_font cli_maxlen true) news imps pss /\
+    (forall ps : list patch,
+     In ps pss ->
+     forall (c : cmd) (k : nat) (x : text), nth_error (cargs (pcmd ps c)) k = Some x -> nth_error (cargs c) k = Some x \/ In x (lnames prog)).
+Proof. exact ProgramClosed.patched_arguments_defined. Qed.
+Print Assumptions patched_arguments_defined.
+
+Theorem program_author_labels_present :
+  forall (opt : bool) (mp : option text) (p : program) (prog : list instr),
+  Forall src_ok (ProgWf.bodies_of (tops p)) ->
+  emit_program_instrs opt mp p = Emitter.Ok prog ->
+  forall (name : text) (glob : bool) (body : list stmt),
+  In (name, glob, body) (NameClash.scripts_of (tops p)) -> In name (lnames prog) /\ (forall l : text, In l (dlabs body) -> In l (lnames prog)).
+Proof. exact ProgramClosed.program_author_labels_present. Qed.
+Print Assumptions program_author_labels_present.
+
+Theorem program_author_labels_once :
+  forall (opt : bool) (mp : option text) (p : program) (prog : list instr),
+  Forall src_ok (ProgWf.bodies_of (tops p)) ->
+  emit_program_instrs opt mp p = Emitter.Ok prog ->
+  names_ok p = true ->
+  forall (name : text) (glob : bool) (body : list stmt),
+  In (name, glob, body) (NameClash.scripts_of (tops p)) ->
+  count_occ text_dec (lnames prog) name = 1 /\ (forall l : text, In l (dlabs body) -> count_occ text_dec (lnames prog) l = 1).
+Proof. exact ProgramClosed.program_author_labels_once. Qed.
+Print Assumptions program_author_labels_once.
+
+Theorem program_scripts_closed :
+  forall (opt : bool) (mp : option text) (p : program) (prog : list instr),
+  Forall src_ok (ProgWf.bodies_of (tops p)) ->
+  emit_program_instrs opt mp p = Emitter.Ok prog ->
+  forall (name : text) (glob : bool) (body : list stmt),
+  In (name, glob, body) (NameClash.scripts_of (tops p)) ->
+  exists code pre post : list instr,
+    emit_script mp (map xname (texts p)) name glob opt body = Emitter.Ok code /\
+    prog = pre ++ code ++ post /\
+    ends_in_terminator code /\
+    ProgramRun.closed code /\ In name (lnames code) /\ (forall l : text, In l (targets_of code) -> In l (lnames code)).
+Proof. exact ProgramClosed.program_scripts_closed. Qed.
+Print Assumptions program_scripts_closed.
+
+Theorem program_closed_any_names :
+  forall (hl hd hs : N -> bool) (autovars : list (text * autovar)) (switches : list (text * text)) (fc : fontcfg) (cli_font : text)
+    (cli_maxlen : Z) (src : text) (p : program),
+  parse_program autovars switches true (parse_format fc cli_font cli_maxlen true) (lex hl hd hs src) = Ok p ->
+  forall (optimize : bool) (mp : option text) (prog : list instr),
+  emit_program_instrs optimize mp p = Emitter.Ok prog -> closed_any_names autovars switches fc cli_font cli_maxlen p optimize mp prog.
+Proof. exact ProgramClosed.program_closed_any_names. Qed.
+Print Assumptions program_closed_any_names.
+
+Theorem program_closed :
+  forall (hl hd hs : N -> bool) (autovars : list (text * autovar)) (switches : list (text * text)) (fc : fontcfg) (cli_font : text)
+    (cli_maxlen : Z) (src : text) (p : program),
+  parse_program autovars switches true (parse_format fc cli_font cli_maxlen true) (lex hl hd hs src) = Ok p ->
+  forall (optimize : bool) (mp : option text) (prog : list instr),
+  emit_program_instrs optimize mp p = Emitter.Ok prog ->
+  names_ok p = true ->
+  NoDup (lnames prog) /\
+  closed_any_names autovars switches fc cli_font cli_maxlen p optimize mp prog /\
+  (forall l : text, In l (lnames prog) -> count_occ text_dec (lnames prog) l = 1) /\
+  (forall (name : text) (glob : bool) (body : list stmt),
+   In (name, glob, body) (NameClash.scripts_of (tops p)) ->
+   count_occ text_dec (lnames prog) name = 1 /\ (forall l : text, In l (dlabs body) -> count_occ text_dec (lnames prog) l = 1)).
+Proof. exact ProgramClosed.program_closed. Qed.
+Print Assumptions program_closed.
+
